@@ -5,7 +5,7 @@ CONSTANTS
   MaxC = 2
   MaxSnap = 2
   MaxBatch = 2
-  AllowDup = TRUE
+  AllowDup = FALSE
   AllowNoPath = TRUE
   AllowStale = TRUE
   WholeOnly = FALSE
